@@ -183,8 +183,9 @@ def run_mux_family(ctx, prop):
     opt = 'demux' if prop == 'C01' else ''
     rnd = harness_gen(ctx, 'mux', 150 if quick else 3000, ctx.seed, 60 if quick else 220, opt=opt)
     more = []
-    if prop == 'C04':
+    if prop in ('C04', 'C05'):
         # histories in which the io.Writer fails once, at every Write index: the failing call is C18's, every call after it has to be exact again
+        # (C05: a call of which the writer took nothing has consumed no counter value)
         once = [s for s in harness_gen(ctx, 'muxfault', 6 if quick else 60, ctx.seed, 4) if s['fault']['mode'] in ('once', 'oncefull')]
         more = [('mux', once, '', monitor)]
     return pipeline(
